@@ -1,4 +1,2 @@
-From Coq Require Import ZArith.
-Search (_ * _ ?= _ * _)%Z.
-Search ((_ ?= _)%Z <> Gt).
-Search ((_ ?= _)%Z <> Lt).
+From ML Require Import proofs.SlowFacts2.
+Check canon_exp_norm. Check nearest_even_norm. Check femin_nonpos. Check pow2_prec_ms. Check rne_bits_succ_mid_cmp. Check encode_offset.
